@@ -302,7 +302,7 @@ def _json_dump(I, args, kwargs):
     obj, fp = args
     text = _dumps(I, obj, kwargs)
     w = I.get_attr(fp, "write")
-    if isinstance(text, DocText) and not isinstance(fp, SymIO):
+    if isinstance(text, DocText) and isinstance(fp, io.IOBase):
         # a real file cannot hold symbolic content; what matters to the checks is that *something* was written
         text = "<document with symbolic content>"
     I.call(w, [text], {})
